@@ -166,6 +166,8 @@ impl<'a> SectionsBuilder<'a> {
                 }
 
                 self.builder.set_id(id);
+                // the list is complete, whatever follows is its sibling even if it has no items
+                self.builder.set_insert(false);
             }
             OrderedList(list) => {
                 self.builder.ordered_list();
@@ -177,6 +179,8 @@ impl<'a> SectionsBuilder<'a> {
                 }
 
                 self.builder.set_id(id);
+                // the list is complete, whatever follows is its sibling even if it has no items
+                self.builder.set_insert(false);
             }
             BlockQuote(quote) => {
                 self.builder.quote();
